@@ -288,15 +288,16 @@ static void traceCase(long k, int T, long len, bool mainRecords, bool processNam
     vh::count("trace_threads_that_reused_an_id", reused);
   }
   // model log for the offline checker
-  std::ofstream mf((base + ".model.json").c_str());
+  auto writeModel = [&](const std::string &path, const std::vector<Op> &mainEvents, bool mainPresent) {
+  std::ofstream mf(path.c_str());
   mf << "{\"case\":" << k << ",\"process_name\":" << (processName ? "\"vh process\"" : "null") << ",\"threads\":{";
   bool firstT = true;
   for (int t = -1; t < T; ++t) {
-    if (t < 0 && !mainRecords)
+    if (t < 0 && !mainPresent)
       continue;
     if (t >= 0 && leader[t] != t)
       continue;
-    const std::vector<Op> &s = t < 0 ? mainScript : merged[t];
+    const std::vector<Op> &s = t < 0 ? mainEvents : merged[t];
     mf << (firstT ? "" : ",") << "\"" << (t < 0 ? std::string("vh-main") : "vh-thread-" + std::to_string(lastOf[t])) << "\":[";
     firstT = false;
     for (size_t i = 0; i < s.size(); ++i) {
@@ -311,6 +312,19 @@ static void traceCase(long k, int T, long len, bool mainRecords, bool processNam
   }
   mf << "}}\n";
   mf.close();
+  };
+  writeModel(base + ".model.json", mainScript, mainRecords);
+  // the recorder keeps what it has: a later saveLog (after more events on this thread) holds everything again
+  if (k % 3 == 1) {
+    std::vector<Op> more = genScript(r, 25, 2);
+    tracing::setThreadName("vh-main");
+    play(more);
+    tracing::saveLog((base + "b.json").c_str(), processName ? "vh process" : nullptr);
+    std::vector<Op> all(mainScript);
+    all.insert(all.end(), more.begin(), more.end());
+    writeModel(base + "b.model.json", all, true);
+    vh::count("trace_second_saves");
+  }
   long total = (long)mainScript.size();
   for (int t = 0; t < T; ++t)
     total += (long)scripts[t].size();
@@ -339,7 +353,7 @@ int main(int argc, char **argv)
       "images: every width x height in 1..17 (thorough 1..33) plus large sizes (every power of two 64..65536 +-1 as width and as height, random widths up to 70000) x 6 writer variants with random pixels in exact-size "
       "buffers, decoded by an independent reader; traces: scenarios (threads 0..8, events per thread in {0,1,8191,8192,8193,20000,random}, "
       "nesting depth <= 6, with/without process name and main-thread events, threads alive together until the log is saved or run one after "
-      "the other (exited, ids reused) before it is saved), each in a fresh process, checked offline by "
+      "the other (exited, ids reused) before it is saved; a third of the scenarios record more and save a second time), each in a fresh process, checked offline by "
       "oracle/trace_check.py; distinct = hash of (format,width,height) / (threads,length,flags); non-trivial = more than one pixel / at least "
       "one event");
   g_names = new std::vector<std::string>();
